@@ -30,6 +30,7 @@ func init() {
 }
 
 func runC18(c *core.Ctx) {
+	c18SignaturesVerifiedUnconditionally(c)
 	// ---- S1
 	type cand struct {
 		named *types.Named
@@ -319,4 +320,38 @@ func flowsToSink(v ssa.Value) bool {
 		return false
 	}
 	return walk(v)
+}
+
+// c18SignaturesVerifiedUnconditionally: the hash of an intercepted header is bound to its signed
+// content only through the signatures: the aggregated signature does not cover Signature,
+// PubKeysBitmap and LeaderSignature, the leader's signature does. CheckValidity of both intercepted
+// header kinds therefore reaches a nil result only through VerifyRandSeedAndLeaderSignature AND
+// VerifySignature, each error-checked - on every path, white-listed or not.
+func c18SignaturesVerifiedUnconditionally(c *core.Ctx) {
+	const pkg = "process/block/interceptedBlocks"
+	for _, typ := range []string{"InterceptedMetaHeader", "InterceptedHeader"} {
+		fn := anchorM(c, pkg, typ, "CheckValidity")
+		if fn == nil {
+			continue
+		}
+		for _, m := range []string{"VerifyRandSeedAndLeaderSignature", "VerifySignature"} {
+			m := m
+			mustPassChecked(c, fn, "C18/signatures-verified-unconditionally", typ+".CheckValidity/"+m, nil,
+				func(in ssa.Instruction, cc *ssa.CallCommon) bool { return cc.IsInvoke() && cc.Method.Name() == m },
+				func(in ssa.Instruction, pred *ssa.BasicBlock) bool {
+					// a return that can be nil; the tail call `return verifier.X(hdr)` is such a return, but the
+					// call it returns is itself the last verification, so it counts as passed for that verifier
+					r, ok := in.(*ssa.Return)
+					if !ok || !core.SuccessReturn(in, pred) {
+						return false
+					}
+					if call, isCall := r.Results[0].(*ssa.Call); isCall && call.Call.IsInvoke() && call.Call.Method.Name() == m {
+						return false
+					}
+					return true
+				}, nil,
+				"CheckValidity accepts only after "+m)
+		}
+	}
+	c.Floor("C18/signatures-verified-unconditionally", 4)
 }
